@@ -325,6 +325,7 @@ type roundRec struct {
 	banFrom  int
 	tipBcast bool
 	queried  bool
+	blockErr bool // GetBlock failed in this round
 	w        *world
 }
 
@@ -345,6 +346,8 @@ type loopRun struct {
 	step   *loopStep
 	rr     *roundRec
 	state  string
+	// rounds in which GetBlock has failed so far (spec BlockFail / BlockFailTimes)
+	blockFails int
 	fail   *c.ImplFailure
 }
 
@@ -410,9 +413,15 @@ func (L *loopRun) respond(q wire.Message) []neutrino.VerifC03PeerMsgs {
 func (L *loopRun) getBlock(hh chainhash.Hash) (*btcutil.Block, error) {
 	L.h.hit()
 	L.mu.Lock()
-	w := L.rr.w
+	rr := L.rr
 	L.mu.Unlock()
-	return w.getBlock(hh)
+	blk, err := rr.w.getBlock(hh)
+	if err != nil {
+		L.mu.Lock()
+		rr.blockErr = true
+		L.mu.Unlock()
+	}
+	return blk, err
 }
 
 func (L *loopRun) banPeer(addr string, _ banman.Reason) error {
@@ -547,7 +556,15 @@ func (L *loopRun) waitQuiescent(hits0 int, wasSleep bool) string {
 
 func (L *loopRun) newRound() {
 	L.mu.Lock()
+	if L.rr != nil && L.rr.blockErr {
+		L.blockFails++
+	}
 	L.rr = &roundRec{asked: "None", banFrom: len(L.bans), w: newWorld(L.ch, L.in, L.answering())}
+	if L.sp.BlockFailTimes == 0 || L.blockFails < L.sp.BlockFailTimes {
+		for _, h := range L.sp.BlockFail {
+			L.rr.w.BlockFail[h] = true
+		}
+	}
 	L.mu.Unlock()
 	L.h.mu.Lock()
 	L.h.tipCalls = 0
